@@ -381,3 +381,42 @@ package xpath
 //@   ensures result != nil && result == old(ctx.res)
 //@   loop 0 invariant ctx.res == old(ctx.res) && ctx.prog == old(ctx.prog)
 //@   loop 0 invariant forall(i, 0, len(ctx.prog), ctx.prog[i].fn != nil)
+
+// ---------------------------------------------------------------------------
+// Location paths (C02): instructions build the path the data tree is asked for on the
+// context's path stack. toppath is the path under construction.
+
+//@ define pstk(ctx) = ctx.actualPathStack.stack
+//@ define toppath(ctx) = ctx.actualPathStack.stack[len(ctx.actualPathStack.stack)-1]
+//@ define pathWF(ctx) = ctx.actualPathStack != nil && len(pstk(ctx)) >= 1 && toppath(ctx) != nil
+//@ define lastElem(p) = p.Elem[len(p.Elem)-1]
+//@ define inKeyPosition(ctx) = ctx.predicateCount > 0 && ctx.predicateEvalPath % 2 == 0
+
+// A name test is a key name (left of '=' inside a predicate) or one more step of the path; a step is a
+// new element carrying the local name only (a prefix never changes the node addressed), allocated by this run.
+//@ func (*ProgBuilder).CodeNameTest$1
+//@   requires ctx != nil && pathWF(ctx)
+//@   modifies ctx.stack
+//@   modifies elems(ctx.stack)
+//@   modifies toppath(ctx).Elem
+//@   modifies elems(toppath(ctx).Elem)
+//@   nopanic
+//@   ensures implies(old(inKeyPosition(ctx)), push1(ctx) && top(ctx) == xp_mklit(name.Local) && toppath(ctx).Elem == old(toppath(ctx).Elem))
+//@   ensures implies(!old(inKeyPosition(ctx)), ctx.stack == old(ctx.stack) && len(toppath(ctx).Elem) == old(len(toppath(ctx).Elem)) + 1 &&
+//@           lastElem(toppath(ctx)).Name == name.Local && lastElem(toppath(ctx)).Key == nil && isfresh(lastElem(toppath(ctx))) &&
+//@           forall(i, 0, len(toppath(ctx).Elem)-1, toppath(ctx).Elem[i] == old(toppath(ctx).Elem[i])))
+//@   ensures pstk(ctx) == old(pstk(ctx)) && toppath(ctx) == old(toppath(ctx))
+
+// '..' is one more element named ".."; a leading '/' marks the path as root based.
+//@ func (*ProgBuilder).CodePathOper$1
+//@   requires ctx != nil && pathWF(ctx)
+//@   modifies toppath(ctx).Elem
+//@   modifies elems(toppath(ctx).Elem)
+//@   nopanic
+//@   ensures len(toppath(ctx).Elem) == old(len(toppath(ctx).Elem)) + 1 && lastElem(toppath(ctx)).Name == ".." && isfresh(lastElem(toppath(ctx)))
+//@   ensures forall(i, 0, len(toppath(ctx).Elem)-1, toppath(ctx).Elem[i] == old(toppath(ctx).Elem[i]))
+//@ func (*ProgBuilder).CodePathOper$2
+//@   requires ctx != nil && pathWF(ctx)
+//@   modifies toppath(ctx).IsRootBased
+//@   nopanic
+//@   ensures toppath(ctx).IsRootBased
